@@ -2,6 +2,7 @@ package interp
 
 import (
 	"fmt"
+	"go/types"
 
 	"gosym/sym"
 
@@ -211,4 +212,31 @@ func registerSigModel(ex *Explorer) {
 		in.storeInto(ec, ec.T, nv)
 		return IfaceVal{}
 	}
+}
+
+// vrt.NewGradingOPR / NewGradingSPR: build the dependency's record structs including
+// their unexported payout/position fields.
+func registerGradingModel(ex *Explorer) {
+	mk := func(pkg, typ, recField string) Intercept {
+		return func(in *Interp, fn *ssa.Function, a []Value) Value {
+			t := in.findType(pkg, typ)
+			st := t.Underlying().(*types.Struct)
+			sv := in.zero(t).(*StructVal)
+			for i := 0; i < st.NumFields(); i++ {
+				switch st.Field(i).Name() {
+				case "EntryHash":
+					sv.F[i] = a[0]
+				case "payout":
+					sv.F[i] = a[1]
+				case "position":
+					sv.F[i] = a[2]
+				case recField:
+					sv.F[i] = a[3]
+				}
+			}
+			return in.newCell(t, sv)
+		}
+	}
+	ex.intercepts[vrtPath+".NewGradingOPR"] = mk("github.com/pegnet/pegnet/modules/grader", "GradingOPR", "OPR")
+	ex.intercepts[vrtPath+".NewGradingSPR"] = mk("github.com/pegnet/pegnet/modules/graderStake", "GradingSPR", "SPR")
 }
